@@ -16,6 +16,7 @@ import (
 	"os"
 	"reflect"
 	"runtime"
+	"strings"
 	"sync"
 	"sync/atomic"
 	"time"
@@ -123,11 +124,47 @@ var (
 )
 
 // WatchdogSeconds is how long a simulation may go without a scheduler step.
-var WatchdogSeconds = 60
+var WatchdogSeconds = 30
+
+// LivelockInfo is printed by the watchdog when the code under test spins
+// without reaching a yield point (set by the harness: seed of the current batch).
+var LivelockInfo atomic.Value
+
+// hangInCodeUnderTest looks for a running/runnable task goroutine whose
+// innermost frame is in vulcand/oxy proper (not in the harness).
+//
+//go:norace
+func hangInCodeUnderTest(stacks string) (bool, string) {
+	for _, block := range strings.Split(stacks, "\n\n") {
+		if !strings.Contains(block, "simrt.(*Sim).Spawn.func1") {
+			continue
+		}
+		lines := strings.Split(block, "\n")
+		if len(lines) < 2 || !(strings.Contains(lines[0], "[running]") || strings.Contains(lines[0], "[runnable]")) {
+			continue
+		}
+		// innermost frame that is not the Go runtime / standard library
+		for _, fn := range lines[1:] {
+			if strings.HasPrefix(fn, "\t") || strings.HasPrefix(fn, "created by") {
+				continue
+			}
+			if strings.Contains(fn, "/zzverif/") {
+				return false, fn
+			}
+			if strings.HasPrefix(fn, "github.com/vulcand/oxy/v2/") {
+				return true, fn
+			}
+		}
+	}
+	return false, ""
+}
 
 //go:norace
 func startWatchdog() {
 	wdOnce.Do(func() {
+		if v := os.Getenv("VERIF_WATCHDOG_S"); v != "" {
+			fmt.Sscanf(v, "%d", &WatchdogSeconds)
+		}
 		go func() {
 			var last uint64
 			idle := 0
@@ -145,9 +182,16 @@ func startWatchdog() {
 					last = p
 				}
 				if idle >= WatchdogSeconds {
-					fmt.Fprintf(os.Stderr, "VERIF-WATCHDOG: no scheduler progress for %d s\n", idle)
 					buf := make([]byte, 1<<20)
 					n := runtime.Stack(buf, true)
+					if under, fn := hangInCodeUnderTest(string(buf[:n])); under {
+						fmt.Fprintf(os.Stderr, "VERIF-LIVELOCK %v\n", LivelockInfo.Load())
+						fmt.Fprintf(os.Stderr, "VERIF-DETAIL kind=livelock: a task ran for %d s inside %s without reaching a yield point or returning\n", idle, fn)
+						fmt.Fprintf(os.Stderr, "VERIF-FAIL kind=livelock\n")
+						os.Stderr.Write(buf[:n])
+						os.Exit(3)
+					}
+					fmt.Fprintf(os.Stderr, "VERIF-WATCHDOG: no scheduler progress for %d s\n", idle)
 					os.Stderr.Write(buf[:n])
 					os.Exit(2)
 				}
